@@ -99,6 +99,23 @@ Emit3 ==
   \A a \in SeqsUpTo(MaxLen3) : \A b \in SeqsUpTo(MaxLen3) : \A c \in SeqsUpTo(MaxLen3) :
     Case("Operate3", <<>>, <<a, b, c>>, <<Zip3(a, b, c, LAMBDA u, v, w : 100 * u + 10 * v + w)>>)
 
+\* scalar helpers and the period synchronisation built on Skip
+RECURSIVE GcdM(_, _)
+GcdM(a, b) == IF b = 0 THEN a ELSE GcdM(b, a % b)
+LcmM(a, b) == (a * b) \div GcdM(a, b)
+MaxM(a, b) == IF a < b THEN b ELSE a
+\* what makes a number the greatest common divisor / least common multiple (checked by TLC next to the recursion)
+IsGcd(g, a, b) == a % g = 0 /\ b % g = 0 /\ \A d \in 1..MaxM(a, b) : (a % d = 0 /\ b % d = 0) => g % d = 0
+IsLcm(m, a, b) == m % a = 0 /\ m % b = 0 /\ \A k \in 1..(a * b) : (k % a = 0 /\ k % b = 0) => k % m = 0
+ScalarsOK == \A a \in 1..12, b \in 1..12 : IsGcd(GcdM(a, b), a, b) /\ IsLcm(LcmM(a, b), a, b)
+EmitScalars ==
+  /\ \A a \in 1..9, b \in 1..9, c \in 1..4 :
+        /\ Case("Gcd", <<a, b, c>>, <<>>, <<<<GcdM(GcdM(a, b), c)>>>>)
+        /\ Case("Lcm", <<a, b, c>>, <<>>, <<<<LcmM(LcmM(a, b), c)>>>>)
+        /\ Case("CommonPeriod", <<a, b, c>>, <<>>, <<<<MaxM(MaxM(a, b), c)>>>>)
+  /\ \A s \in SeqsUpTo(MaxLen) : \A common \in 0..4, period \in 0..4 :
+        Case("SyncPeriod", <<common, period>>, <<s>>, <<SkipM(s, IF common > period THEN common - period ELSE 0)>>)
+
 EmitSeq ==
   \A f \in 0..2 : \A t \in 0..5 : \A i \in 1..3 : Case("Seq", <<f, t, i>>, <<>>, <<SeqM(f, t, i)>>)
 
@@ -115,5 +132,6 @@ EmitCap ==
     \A n \in 1..MaxPar : \A capIn \in {0, 1, 3} :
       PrintT("CAP " \o ToJson([h |-> h, n |-> n, capIn |-> capIn, cap |-> CapM(h, n, capIn)]))
 
-ASSUME Emit1 /\ Emit2 /\ Emit3 /\ EmitSeq /\ EmitCap
+ASSUME ScalarsOK
+ASSUME Emit1 /\ Emit2 /\ Emit3 /\ EmitSeq /\ EmitScalars /\ EmitCap
 =============================================================================
